@@ -1,12 +1,48 @@
 import Driver.Proto
-import PqModel.Search
+import PqModel.SearchMulti
+import PqModel.SearchNaN
 
 namespace Driver.Ops.C06
 open Driver
 
+def parseBit? (s : String) : Option Bool :=
+  if s == "1" then some true else if s == "0" then some false else none
+
+/-- one chunk index: `<asc><desc>:<null pages>:<mins>:<maxs>`, e.g. `10:0,0:0,10:9,50` -/
+def parseChunk? (s : String) : Option PqModel.Search.Chunk :=
+  match s.splitOn ":" with
+  | [flags, nulls, mins, maxs] =>
+    match flags.toList, parseList? parseBit? nulls, parseList? parseOptInt? mins, parseList? parseOptInt? maxs with
+    | [a, d], some ns, some mn, some mx =>
+      match parseBit? (String.singleton a), parseBit? (String.singleton d) with
+      | some a, some d =>
+        if mn.length = mx.length ∧ ns.length = mn.length then
+          some { nulls := ns, ix := { mins := mn, maxs := mx }, asc := a, desc := d }
+        else none
+      | _, _ => none
+    | _, _, _, _ => none
+  | _ => none
+
+/-- chunks separated by `|`, `-` = no chunk -/
+def parseChunks? (s : String) : Option (List PqModel.Search.Chunk) :=
+  if s == "-" then some [] else (s.splitOn "|").mapM parseChunk?
+
+/-- float bound: int rank, `n` = null, `nan` -/
+def parseFB? (s : String) : Option PqModel.Search.FB :=
+  if s == "n" then some .null else if s == "nan" then some .nan else (s.toInt?).map .val
+
+def showBound : PqModel.Search.Bound → String
+  | none => "n"
+  | some x => toString x
+
 /-- `find <asc 0/1> <zero-rank> <mins> <maxs> <v>` (bounds: int or `n`) -> `ok <page> <boundary order>`
     (nulls-last compare, as `Search`); `find.nf <nullsFirst 0/1> <asc> <zero-rank> <mins> <maxs> <v>` gives the
-    null ordering of the compare function handed to `Find`. -/
+    null ordering of the compare function handed to `Find`.
+    `find.z2 <nullsFirst> <asc> <zero-rank of mins> <zero-rank of maxs> <mins> <maxs> <v>`: placeholders of null pages differ per list.
+    `find.f <nullsFirst> <asc> <zero-rank> <mins> <maxs> <v>`: the same over float bounds (int | `n` | `nan`).
+    `multi.find <nullsFirst> <zero-rank> <chunks> <probes>` -> `ok <page per probe> <IsAscending> <IsDescending> <NumPages>
+    <NullPage list> <MinValue list> <MaxValue list>` of the multiColumnIndex over the chunk indexes, every
+    access through the `mapPageIndex` mirror. -/
 def handle (toks : List String) : Option String :=
   match toks with
   | ["find", asc, z, mins, maxs, v] => some <|
@@ -23,6 +59,29 @@ def handle (toks : List String) : Option String :=
       if mn.length ≠ mx.length || (nf != "0" && nf != "1") then "bad-op" else
       s!"ok {PqModel.Search.find (nf == "1") (asc == "1") ix v} {PqModel.Search.writerOrder z ix}"
     | _, _, _, _ => "bad-op"
+  | ["find.z2", nf, asc, zn, zx, mins, maxs, v] => some <|
+    match parseList? parseOptInt? mins, parseList? parseOptInt? maxs, parseInt? v, parseInt? zn, parseInt? zx with
+    | some mn, some mx, some v, some zn, some zx =>
+      let ix : PqModel.Search.Index := { mins := mn, maxs := mx }
+      if mn.length ≠ mx.length || (nf != "0" && nf != "1") then "bad-op" else
+      s!"ok {PqModel.Search.find (nf == "1") (asc == "1") ix v} {PqModel.Search.writerOrder2 zn zx ix}"
+    | _, _, _, _, _ => "bad-op"
+  | ["find.f", nf, asc, z, mins, maxs, v] => some <|
+    match parseList? parseFB? mins, parseList? parseFB? maxs, parseInt? v, parseInt? z with
+    | some mn, some mx, some v, some z =>
+      let ix : PqModel.Search.FIndex := { mins := mn, maxs := mx }
+      if mn.length ≠ mx.length || (nf != "0" && nf != "1") then "bad-op" else
+      s!"ok {PqModel.Search.findF (nf == "1") (asc == "1") ix v} {PqModel.Search.writerOrderF z ix}"
+    | _, _, _, _ => "bad-op"
+  | ["multi.find", nf, z, chunks, vs] => some <|
+    match parseChunks? chunks, parseList? parseInt? vs, parseInt? z with
+    | some cs, some vs, some z =>
+      if nf != "0" && nf != "1" then "bad-op" else
+      let view := PqModel.Search.multiView cs
+      let b := fun (x : Bool) => if x then "1" else "0"
+      let finds := vs.map (fun v => PqModel.Search.findMultiGo (nf == "1") z cs v)
+      s!"ok {showList toString finds} {b (PqModel.Search.multiIsAscending z cs)} {b (PqModel.Search.multiIsDescending z cs)} {PqModel.Search.total cs} {showList b (PqModel.Search.multiViewNulls cs)} {showList showBound view.mins} {showList showBound view.maxs}"
+    | _, _, _ => "bad-op"
   | _ => none
 
 end Driver.Ops.C06
